@@ -132,6 +132,9 @@ impl Environment for StaticEnvironment {
                     pure: function.pure,
                 },
                 Arity::Variadic => FunctionResult::WrongArity { min: 1, max: 99 }, // variadic without parameters
+                Arity::None if param_count == 0 => FunctionResult::Exists {
+                    pure: function.pure,
+                },
                 Arity::None => FunctionResult::WrongArity { min: 0, max: 0 },
             }
         } else {
